@@ -52,6 +52,10 @@ pub fn generate_enc_master_key() -> Sm9EncMasterKey {
 
 impl Sm9EncKey {
     pub fn decrypt(&self, idb: &[u8], data: &[u8]) -> Sm9Result<Vec<u8>> {
+        // C1 (65 bytes) || C3 (32 bytes) || C2 (at least one byte)
+        if data.len() < 65 + 32 + 1 {
+            return Err(Sm9Error::InvalidFieldLen);
+        }
         let c1_bytes = &data[0..65];
         let c2 = &data[(65 + 32)..];
         let c3 = &data[65..(65 + 32)];
@@ -62,14 +66,14 @@ impl Sm9EncKey {
         k_append.extend_from_slice(&c1_bytes[1..65]);
         k_append.extend_from_slice(&w_bytes);
         k_append.extend_from_slice(idb);
-        let k = kdf(&k_append, (255 + 32) as usize);
+        let mlen = data.len() - (65 + 32);
+        let k = kdf(&k_append, mlen + 32);
         fn is_zero(x: &Vec<u8>) -> bool {
             x.iter().all(|&byte| byte == 0)
         }
 
         if !is_zero(&k) {
             let k = k.as_slice();
-            let mlen = data.len() - (65 + 32);
             let k1 = &k[0..mlen];
             let k2 = &k[mlen..];
             let u = sm3_mac(k2, c2, 32);
@@ -124,7 +128,7 @@ impl Sm9EncMasterKey {
             k_append.extend_from_slice(&cbuf[1..cbuf.len()]);
             k_append.extend_from_slice(gbuf);
             k_append.extend_from_slice(idb);
-            k = kdf(&k_append, (255 + 32) as usize);
+            k = kdf(&k_append, data.len() + 32);
             fn is_zero(x: &Vec<u8>) -> bool {
                 x.iter().all(|&byte| byte == 0)
             }
